@@ -3,7 +3,7 @@
 set -e
 cd /verif
 export CARGO_TARGET_DIR=/verif/build/cargo CARGO_NET_OFFLINE=true RUSTFLAGS="--cfg wirm_verif"
-cargo build --offline --release -q --manifest-path harness/Cargo.toml 2>&1 | grep -E "^error|^warning: unused" -A5 || true
+cargo build --offline --release -q --bin $1 --manifest-path harness/Cargo.toml 2>&1 | grep -E "^error|^warning: unused" -A5 || true
 d=build/t_$2; rm -rf $d
 build/cargo/release/$1 --prop $2 --seed $3 --n $4 --shards ${5:-2} --out $d
 for f in $d/s*.v; do (coqc -q -noglob -R coq Orca $f 2>&1 | grep -v "^WARNING" | tr '\n' ' ' | sed 's/  */ /g'; echo) & done; wait
